@@ -42,6 +42,8 @@ header_st = st.fixed_dictionaries({
     "rows": st.integers(64, 160), "cols": st.integers(64, 160),
     "crpix_dir": f(0, 360), "crpix_frac": st.one_of(st.just(0.0), f(0, 1), f(0.8, 1)),
     "bmin": f(4, 8), "bratio": f(1, 2), "bpa": f(-90, 90),
+    # rotation of the pixel axes against the sky (CD matrix with off-diagonal terms); 0 = the CDELT header
+    "rot": st.sampled_from([0.0, 0.0, 0.0, 0.0, 0.0, 5.0, -25.0, 90.0, 137.0]),
 })
 
 source_st = st.fixed_dictionaries({
@@ -89,7 +91,7 @@ def build(c, white_clause=False):
         bratio = min(bratio, 9.0 / h["bmin"])       # white-noise clause: keep the major axis <= 10 px (see ASSUMPTIONS)
     bmaj_px = h["bmin"] * bratio
     w, hdr = skyimg.make_header(h["proj"], (h["crval1"], h["crval2"]), crpix, h["scale"], (rows, cols),
-                                (bmaj_px, 1.0 / bratio, h["bpa"]))
+                                (bmaj_px, 1.0 / bratio, h["bpa"]), rot=h.get("rot", 0.0))
     beam = (hdr["BMAJ"], hdr["BMIN"], hdr["BPA"])
     sc = c["src"]
     int_a = sc["int_a"]
